@@ -348,7 +348,7 @@ func (p *Parser) parseSelect(stmt *SelectStatement) error {
 		parenthesesLevel := 0 // 跟踪括号嵌套层级
 
 		// 设置最大表达式长度，防止无限循环
-		maxExprParts := 100
+		maxExprParts := len(p.input) + 1 // every token consumes at least one byte: a longer item is not a syntax error
 		exprPartCount := 0
 
 		for {
